@@ -19,10 +19,18 @@ def hexs(b):
     return b.hex() if b else "-"
 
 
+RS_VARIANTS = ["u64", "arr", "vec", "sv"]
+
+
 class Hist:
     """tracks what the script has pushed so far (timestamps and canonical byte offsets)"""
+    _rs_counter = 0
 
     def __init__(self, p, hdr=b"", caches=()):
+        # which of the library's ResampleState impls feeds the caches of this history (number, array,
+        # Vec, spilled SmallVec - same files for all of them): cycles through the variants
+        Hist._rs_counter += 1
+        self.rs = RS_VARIANTS[Hist._rs_counter % len(RS_VARIANTS)]
         self.p = p
         self.ls = p + 2
         self.ms = lpm(p) * self.ls
@@ -38,7 +46,7 @@ class Hist:
         return ",".join(str(b) for b in self.caches) if self.caches else "-"
 
     def new(self):
-        self.ops.append(f"new p={self.p} hdr={hexs(self.hdr)} caches={self.cachespec()}")
+        self.ops.append(f"new p={self.p} hdr={hexs(self.hdr)} caches={self.cachespec()}" + (f" rs={self.rs}" if self.caches and self.rs != "u64" else ""))
 
     def reopen(self, cb="none", hdr=None, p=None, ext=0, caches=None):
         self.ops.append("close")
@@ -48,7 +56,7 @@ class Hist:
         h = "any" if hdr is None else hexs(hdr)
         ps = "any" if p is None else str(p)
         c = self.cachespec() if caches is None else (",".join(map(str, caches)) or "-")
-        self.ops.append(f"open p={ps} hdr={h} caches={c} cb={cb} ext={ext}")
+        self.ops.append(f"open p={ps} hdr={h} caches={c} cb={cb} ext={ext}" + (f" rs={self.rs}" if c != "-" and self.rs != "u64" else ""))
 
     def _account(self, t):
         if self.full is None or t - self.full > MAXD:
@@ -417,6 +425,20 @@ def gen_C13(rng, tier):
                 h.op(f"read_first_n n={n} s=I:1100 e=I:{h.ts[-10]} pre={pre}")
             h.op(f"read_all s=I:1100 e=I:{h.ts[-10]} pre={pre}")
         out.append((f"prefilled-vectors-p{p}", h.script()))
+    # n used as "no limit": far beyond anything stored, up to usize::MAX - the answer is the full read of the range
+    for p in (0, 4):
+        h = Hist(p)
+        h.new()
+        h.pushrun(1000, 7, 12, 3)
+        h.pushrun(h.last() + 100000, 7, 5, 4)
+        for n in (1 << 31, 1 << 40, 1 << 61, (1 << 63) - 1, 1 << 63, U64):
+            h.op(f"read_first_n n={n} s=U e=U")
+            h.op(f"read_first_n n={n} s=E:1007 e=I:{h.ts[-2]}")
+        h.op(f"page n={U64}")
+        h.op(f"page n={1 << 40}")
+        h.reopen()
+        h.op(f"read_first_n n={U64} s=U e=U")
+        out.append((f"huge-n-p{p}", h.script()))
     # very sparse series (every line opens a section) and LARGE n: thousands of section headers lie
     # between the first and the n-th line of the range
     for p, count in ([(8, 3000), (0, 1500)] if tier == "quick" else [(8, 6000), (4, 3000), (0, 3000), (2, 3000)]):
@@ -747,6 +769,7 @@ def gen_C04(rng, tier):
     out = marker_word_battery(["files", "read_all s=U e=U", "len", "range"])
     out += payload_marker_battery(["files", "read_all s=U e=U", "len", "range", "last_line"])
     out += mixed_session_battery(rng, ["files", "len", "range"])
+    out += delta_bytes_battery(["files", "read_all s=U e=U", "len", "range"])
     out += empty_reopen_battery(["files", "len", "range", "read_all s=U e=U"])
     # the same with downsample caches configured: reopening at every fill level of a bucket, with time
     # gaps inside the unfinished bucket, must succeed and preserve everything
@@ -1130,8 +1153,45 @@ def _after_open_obs(h, rng, appends=True):
     h.op("close")
 
 
+def delta_bytes_battery(ops_after):
+    """the LAST lines of the file carry 16-bit times with an FF byte (255, 511, 0xFF00, 0xFEFF, 65279, the
+    largest 65534): the file is reopened intact and after a cut at every byte of its last two lines;
+    nothing of a complete line may be taken for (part of) a meta section"""
+    out = []
+    deltas = [255, 511, 767, 0xFF00, 0xFF01, 0xFEFF, 0x00FF + 256 * 7, 65534, 65279]
+    for p in [0, 1, 3, 4, 9]:
+        for i, d in enumerate(deltas):
+            d2 = deltas[(i + 3) % len(deltas)]
+            h = Hist(p)
+            h.new()
+            base = [10, 1 << 33][i % 2]
+            h.push(base, pl=bytes([1] * p))
+            lo, hi = sorted({min(d, d2), max(d, d2)}) if d != d2 else (d - 1, d)
+            h.push(base + lo, pl=bytes([2] * p))
+            h.push(base + hi, pl=bytes([3] * p))
+            if not marker_free(p, h.ts):
+                continue
+            H = header_len(p, 0)
+            total = H + h.off
+            h.op("files")
+            h.op("close")
+            h.op("save 0")
+            for cut in [None] + list(range(total - 2 * h.ls, total)):
+                h.op("restore 0")
+                if cut is not None:
+                    h.op(f"cut data {cut}")
+                h.op("open p=any hdr=any caches=- cb=none ext=0")
+                for a in ops_after:
+                    h.op(a)
+                h.op("close")
+                h.op("files")
+            out.append((f"delta-bytes-p{p}-{lo:x}-{hi:x}", h.script()))
+    return out
+
+
 def gen_C05(rng, tier):
     out = marker_word_battery(["files", "read_all s=U e=U", "len"])
+    out += delta_bytes_battery(["read_all s=U e=U", "len", "range", "last_line"])
     # index lagging by its last entry while the last section header straddles a search window
     out += window_sweep_battery(tier, [8] if tier == "quick" else [8, 4, 0])
     # recovered files must answer bounded reads exactly too (a rebuilt index with wrong offsets)
@@ -1389,8 +1449,60 @@ def window_sweep_battery(tier, ps):
     return out
 
 
-def gen_C06(rng, tier):
+def marker_words_inside_battery(ops_after):
+    """a section in the MIDDLE of the file whose timestamp has FF FF words in the lines that carry the
+    rest of the full time (payload 0..3); the sections after it keep the tail clean, so the tail repair
+    has nothing to do with it - but everything that scans the data for sections (index rebuild, the
+    backwards last-timestamp search) walks over these lines.  Index removed / cut / lagging, reopen"""
     out = []
+    words = {
+        0: [0x18F_FFFF_FFFF, 0xFFFF_FFFF, 0x1_FFFF_FFFF_0005, 0xFFFF_FFFF_0000_0007, 0xFFFF_FFFF_FFFF_0000],
+        1: [0xFFFF_0000 + 3, 0xFFFF_00FF_FF00_0002, 0x12FF_FF34_FFFF_0000 + 9],
+        2: [0xFFFF_0000_0000 + 11, 0x0012_FFFF_0000_0000 + 5],
+        3: [(0xFFFF << 48) + 77, (0xFFFF << 48) + 0x0000_1234_5678],
+    }
+    for p, ws in words.items():
+        for w in ws:
+            for tail_lines in (1, 3):
+                h = Hist(p)
+                h.new()
+                t0 = max(w - 400000, 5) if w > 500000 else 5
+                for t in (t0, t0 + 1):
+                    h.push(t, pl=bytes([1] * p))
+                h.push(w, pl=bytes([2] * p))
+                h.push(w + 1, pl=bytes([3] * p))
+                for k in range(2):                              # two clean sections behind it
+                    base = w + 200000 * (k + 1)
+                    if base + 10 >= U64:
+                        break
+                    for j in range(tail_lines):
+                        h.push(base + j, pl=bytes([4 + k] * p))
+                if h.last() <= w + 1:
+                    continue
+                h.op("files")
+                h.op("close")
+                h.op("save 0")
+                nsec = len(h.sections)
+                for dmg in ("rm index", f"cut index {4 + 16 * (nsec - 1)}", f"cut index {4 + 16 * (nsec - 2) + 7}", None):
+                    h.op("restore 0")
+                    if dmg:
+                        h.op(dmg)
+                    h.open()
+                    for a in ops_after:
+                        h.op(a)
+                    last = h.last()
+                    h.op(f"push ts={last + 1} pl={hexs(bytes(p))}")
+                    h.op(f"push ts={last + 100000} pl={hexs(bytes(p))}")
+                    for a in ops_after:
+                        h.op(a)
+                    h.op("close")
+                    h.op("files")
+                out.append((f"marker-inside-p{p}-{w:x}-t{tail_lines}", h.script()))
+    return out
+
+
+def gen_C06(rng, tier):
+    out = marker_words_inside_battery(["files", "len", "read_all s=U e=U"])
     for p in ([0, 2, 4] if tier == "quick" else [0, 1, 2, 3, 4, 5, 8, 16]):
         h = big_sparse(p, lines_for_bytes(p, 3 * 16384 + 700, True), seed=p + 31)
         h.op("files")
@@ -2070,8 +2182,33 @@ def text_header_battery(tier):
     return out
 
 
-def gen_C17(rng, tier):
+def builder_chain_battery():
+    """the header option is given by a CHAIN of builder calls; the last call decides: with_any_header()
+    followed by with_header(h) demands h, the reverse order accepts anything, a second with_header
+    replaces the first - on create and on open, payload size demanded or retrieved"""
     out = []
+    stored, other = b"sensor: kitchen", b"sensor: cellar"
+    S, O = hexs(stored), hexs(other)
+    for p in (0, 4):
+        h = Hist(p, hdr=stored)
+        h.op(f"new p={p} hdr=any>{S} caches=-")
+        h.op(f"push ts=5 pl={hexs(bytes(p))}")
+        h.op("close")
+        h.op("files")
+        for ps in (str(p), "any"):
+            for chain in (f"any>{O}", f"any>{S}", f"{O}>any", f"{O}>{S}", f"{S}>{O}", f"any>any>{O}", f"{O}>any>{S}", f"any>{O}>any"):
+                h.op(f"open p={ps} hdr={chain} caches=- cb=none ext=0")
+                h.op("payload_size")
+                h.op("close")
+        h.op("files")
+        h.op(f"new p={p} hdr={O}>any caches=-")                     # over existing, whatever the chain
+        h.op("files")
+        out.append((f"builder-chain-p{p}", h.script()))
+    return out
+
+
+def gen_C17(rng, tier):
+    out = builder_chain_battery()
     directed = [(p, d) for p in (8, 0, 12345) for d in (-1, 0, 1, 2)]
     for i in range(len(directed) + (6 if tier == "quick" else 60)):
         if i < len(directed):
